@@ -64,6 +64,8 @@ def snapshot(root):
                 snap[r] = ("l", os.readlink(p))
             elif stat.S_ISDIR(s.st_mode):
                 snap[r] = ("d", stat.S_IMODE(s.st_mode))
+            elif not stat.S_ISREG(s.st_mode):
+                snap[r] = ("s", stat.S_IFMT(s.st_mode), stat.S_IMODE(s.st_mode))
             else:
                 with open(p, "rb") as fp:
                     snap[r] = ("f", s.st_size, stat.S_IMODE(s.st_mode), s.st_mtime_ns, hashlib.sha1(fp.read()).hexdigest())
